@@ -268,12 +268,16 @@ def direct(case, obs):
         return [("driver", obs["driver_exception"] + " " + obs.get("trace", "")[-400:])]
     kind = case["kind"]
     f = []
+    if "skipped" in obs:
+        return f
     if kind == "codec":
         if _sh(obs.get("copy_shares_original")):
             f.append(("codec-copy-shares-original", "decode(encode(v)) shares a mutable node with v: %r" % obs["copy_shares_original"]))
     elif kind == "rec":
         for o in obs["keys"]:
             k = o["key"]
+            if "skipped" in o:
+                continue
             for name, sig in (("share_read_stored", "rec-read-shares-stored"), ("share_item_stored", "rec-read-shares-stored"),
                               ("share_two_reads", "rec-two-reads-share")):
                 if _sh(o[name]):
